@@ -422,9 +422,12 @@ fn roundtrip<T: Specimen>(name: &str, x: T, rng: &mut Rng, out: &mut CaseOut) {
     while i < print_findings.len() {
         let sig = print_findings[i].0.clone();
         let ps: Vec<String> = print_findings.iter().filter(|f| f.0 == sig).map(|f| f.1.clone()).collect();
+        // Not part of C16's statement (which is about converting and *reading*): a printed text
+        // that does not denote the value's model is a printer/parser defect, i.e. C09's business.
+        // It is recorded under C09 so that it never decides the C16 check.
         out.violation(
-            P,
-            sig.clone(),
+            "C09",
+            format!("form-engine/{sig}"),
             format!("the Recon text printed from x does not denote x.as_value() (printers: {})", ps.join("+")),
             print_findings[i].2.clone(),
         );
